@@ -32,7 +32,8 @@ returned for the evidence).  Every function of a reachable module counts as reac
 
 Generator classification
   numpyGlobal   numpy.random.<fn> (any spelling: np.random.x, `from numpy import random`, `from numpy.random
-                import x`), scipy `<dist>.rvs(...)` and pandas `<frame>.sample(...)` without random_state=
+                import x`), scipy `<dist>.rvs(...)` and pandas `<frame>.sample(...)` without random_state= or with
+                random_state=<the numpy.random module> (scipy/pandas map it to the global RandomState)
   stdlibRandom  random.<fn> of the standard library (`import random`, `from random import x`)
   other         own generator objects (numpy.random.default_rng/RandomState/Generator/..., random.Random,
                 random.SystemRandom), os.urandom, secrets.*, uuid.uuid1/uuid4, `.rvs/.sample` WITH random_state=,
@@ -637,8 +638,15 @@ class FuncScan(ast.NodeVisitor):
                     self.mut(node, sh, "." + f.attr)
             r = classify_rng(self.m, f)
             if r is None and f.attr in ("rvs", "sample"):
-                has_rs = any(k.arg == "random_state" and not (isinstance(k.value, ast.Constant) and k.value.value is None)
-                             for k in node.keywords)
+                def _own_state(v):
+                    # random_state=None or random_state=<the numpy.random module / its singleton>: the global generator
+                    if isinstance(v, ast.Constant) and v.value is None:
+                        return False
+                    c = chain(v)
+                    pth = ext_path(self.m, c) if c else None
+                    return pth not in ("numpy.random", "numpy.random.mtrand._rand")
+
+                has_rs = any(k.arg == "random_state" and _own_state(k.value) for k in node.keywords)
                 self.ex.rng.append({"file": self.m.rel, "line": node.lineno, "func": self.qual,
                                     "gen": "other" if has_rs else "numpyGlobal",
                                     "call": "<obj>." + f.attr + ("(random_state=...)" if has_rs else "")})
